@@ -57,7 +57,10 @@ NOT covered: a deleting form of CHARSET (this version of AS has none: every entr
     manual is silent; statements leaving the 8-code window are not followed); files shorter than 256 bytes (fatal error);
     more than 3 page names; SAVE/RESTORE of the other frame members (C18/C10); the listing's code page report; translation in
     the TI/AVR/other target-specific data statements (c09.py covers their layouts with a single map).
-Mutations tried on scratch copies (quick tier): see the docstring section "Extension charmap" of checks/c09.py.
+Mutations tried on scratch copies (quick tier; all caught, counts in the section "Extension charmap" of checks/c09.py's docstring):
+    CODEPAGE copies from the active instead of the named page; RESTORE keeps the active page; CHARSET i,"string" translates
+    the string; CODEPAGE's second name not upper-cased; TranslateString indexes with 7 bits; pages survive into the next pass;
+    CHARSET without arguments resets half the table; only the last character of a multi-character constant translated.
 """
 import json
 
@@ -76,6 +79,7 @@ TARGETS = {
 ORDER = ["z80", "68000", "6502", "6809"]
 DATA_FORMS = ("str", "chr", "multi", "expr", "cmp", "cap")
 QUICK_HISTORIES = 6000
+BATCH = 12
 
 
 def ch(c):
@@ -265,6 +269,43 @@ def judge(rep, case, res, stats):
                       key={"kind": "charmap-length", "target": case.tname})
 
 
+class Obs:
+    """what judge() needs of one assembly"""
+
+    def __init__(self, rc=0, p=None, out="", err="", timeout=False, sig=None, trace=None):
+        self.rc, self.p, self.out, self.err, self.timeout, self.sig, self.trace = rc, p, out, err, timeout, sig, trace
+
+    def parsed(self):
+        from vlib import codefile
+        return codefile.parse(self.p)
+
+
+def assemble_cases(bld, cases, bins):
+    """-> one observation per case.  Histories without an erroneous statement are assembled BATCH sources per asl invocation
+    (`asl h0.asm h1.asm ...`: one code file each; the start-up of a process costs more than a history); a batch that does
+    not end cleanly is repeated source by source, like the histories with erroneous statements (hook trace needed)."""
+    out = [None] * len(cases)
+    groups = {}
+    for i, c in enumerate(cases):
+        if not c.has_err:
+            groups.setdefault(tuple(c.opts), []).append(i)
+    batches = [g[k:k + BATCH] for g in groups.values() for k in range(0, len(g), BATCH)]
+    res = aslrun.assemble_many(bld, [{"sources": {"h%d.asm" % n: cases[i].src for n, i in enumerate(b)}, "bin": bins,
+                                      "main": ["h%d.asm" % n for n in range(len(b))], "opts": cases[b[0]].opts,
+                                      "want": ["h%d.p" % n for n in range(1, len(b))]} for b in batches])
+    for b, r in zip(batches, res):
+        ps = [r.p] + [r.files.get("h%d.p" % n) for n in range(1, len(b))]
+        if r.rc == 0 and not r.timeout and r.sig is None and all(x is not None for x in ps):
+            for i, x in zip(b, ps):
+                out[i] = Obs(p=x)
+    single = [i for i in range(len(cases)) if out[i] is None]
+    res = aslrun.assemble_many(bld, [{"sources": {"a.asm": cases[i].src}, "opts": cases[i].opts, "bin": bins,
+                                      "events": "emit,diag" if cases[i].has_err else None} for i in single])
+    for i, r in zip(single, res):
+        out[i] = Obs(r.rc, r.p, r.out, r.err, r.timeout, r.sig, r.trace)
+    return out
+
+
 def table_file(tab):
     b = bytearray(range(256))
     for k, v in tab.items():
@@ -326,32 +367,39 @@ def run(rep, bld, tier):
         short = [o for o in uniq if len(o["h"]) <= 2]
         keep = set(map(id, r.sample(short, max(0, QUICK_HISTORIES - (len(uniq) - len(short))))))
         uniq = [o for o in uniq if len(o["h"]) > 2 or id(o) in keep]
-    cases = []
-    for i, o in enumerate(uniq):
-        for tn in ([ORDER[(i + off) % 4]] if quick else ORDER):
-            cases.append(Case(o, tn, two=(i % 4 == 1)))
-    with Phase("charmap: assemble %d histories" % len(cases)):
-        results = aslrun.assemble_many(bld, [{"sources": {"a.asm": c.src}, "opts": c.opts, "bin": bins,
-                                              "events": "emit,diag" if c.has_err else None} for c in cases])
     stats = {"bad": 0, "drift": 0, "drift_kinds": {}, "bins": bins}
-    for c, res in zip(cases, results):
-        rep.evaluated()
-        rep.distinct(("charmap", c.tname, c.src), True)
-        judge(rep, c, res, stats)
-    rep.traces(len(cases))
+    tot = {"sources": 0, "err": 0, "two": 0, "cs": 0, "amb": 0, "probes": 0}
+    sampled = False
+    CH = 6000                                          # histories per round (bounds the memory of the thorough tier)
+    with Phase("charmap: assemble %d histories x %d target(s)" % (len(uniq), 1 if quick else 4)):
+        for lo in range(0, len(uniq), CH):
+            cases = []
+            for i, o in enumerate(uniq[lo:lo + CH], lo):
+                for tn in ([ORDER[(i + off) % 4]] if quick else ORDER):
+                    cases.append(Case(o, tn, two=(i % 4 == 1)))
+            results = assemble_cases(bld, cases, bins)
+            for c, res in zip(cases, results):
+                rep.evaluated()
+                rep.distinct(("charmap", c.tname, c.src), True)
+                judge(rep, c, res, stats)
+                tot["sources"] += 1
+                tot["err"] += c.has_err
+                tot["two"] += c.two
+                tot["cs"] += bool(c.rec["cs"])
+                tot["amb"] += any(p["amb"] for p in c.probes)
+                tot["probes"] += len(c.probes)
+                if not sampled and len(c.rec["h"]) > 2 and not c.has_err:
+                    sampled = True
+                    rep.sample({"charmap_history": [spell_stmt(x, i + 1).strip() for i, x in enumerate(c.rec["h"])],
+                                "target": c.tname, "opts": c.opts,
+                                "expected_after_last_statement": [(p["text"], p["vals"]) for p in c.probes
+                                                                  if p["n"] == len(c.rec["h"]) and p["form"] != "cap"][:3]}, limit=8)
+            rep.traces(len(cases))
     if stats["drift"] > 4:
         rep.drift("charmap: %d drift observations in all: %s" % (stats["drift"], stats["drift_kinds"]))
-    rep.part("CharMap(replay)", histories=len(uniq), sources=len(cases), with_erroneous_statement=sum(c.has_err for c in cases),
-             two_pass=sum(c.two for c in cases), case_sensitive=sum(bool(c.rec["cs"]) for c in cases),
-             ambiguous_points=sum(any(p["amb"] for p in c.probes) for c in cases), probes=sum(len(c.probes) for c in cases),
+    rep.part("CharMap(replay)", histories=len(uniq), sources=tot["sources"], with_erroneous_statement=tot["err"],
+             two_pass=tot["two"], case_sensitive=tot["cs"], ambiguous_points=tot["amb"], probes=tot["probes"],
              mismatches=stats["bad"], drift=stats["drift_kinds"])
-    for c in cases:
-        if len(c.rec["h"]) > 2 and not c.has_err:
-            rep.sample({"charmap_history": [spell_stmt(s, i + 1).strip() for i, s in enumerate(c.rec["h"])], "target": c.tname,
-                        "opts": c.opts, "expected_after_last_statement": [(p["text"], p["vals"]) for p in c.probes
-                                                                          if p["n"] == len(c.rec["h"]) and p["form"] != "cap"][:3]},
-                       limit=8)
-            break
 
 
 def replay(path):
